@@ -417,9 +417,9 @@ add('c13-explicit-edge-stop', ['C13', 'C07'], 'silent', 'Slicer.parse_slice',
     'an open stop written as the edge of the plate', module=S)
 
 # ------------------------------------------------------------------------------------------------ identity discipline
-add('c01-hash-with-specific-activity', ['C01', 'C10'], 'fire', 'Substance.__hash__',
-    'hash((self.name, self._type, self.mol_weight, self.density, self.concentration))',
+add('c01-hash-with-molecule', ['C01', 'C10'], 'fire', 'Substance.__hash__',
     'hash((self.name, self._type, self.mol_weight, self.density, self.concentration, self.specific_activity))',
+    'hash((self.name, self._type, self.mol_weight, self.density, self.concentration, self.specific_activity, id(self.molecule)))',
     'equal substances hash differently: the entry of an equal key is missed')
 add('c10-container-eq-without-contents', ['C10'], 'fire', 'Container.__eq__',
     'self.name == other.name and self.contents == other.contents and (self.volume == other.volume)',
@@ -432,3 +432,13 @@ add('c10-container-hash-without-contents', ['C10'], 'silent', 'Container.__hash_
 add('c01-eq-conjunction-reordered', ['C01', 'C10'], 'silent', 'Substance.__eq__',
     'self.name == other.name and self._type == other._type', 'self._type == other._type and self.name == other.name',
     'order of the conjunction')
+add('c02-eq-without-specific-activity', ['C01', 'C02', 'C10', 'C11', 'C17', 'C19'], 'fire', 'Substance.__eq__',
+    ' and (self.specific_activity == other.specific_activity)', '',
+    'F35 re-broken: two enzyme lots with different specific activity are one key (hash outside eq as well)')
+add('c01-eq-compares-molecule', ['C01', 'C08', 'C09', 'C10', 'C17'], 'fire', 'Substance.__eq__',
+    ' and (self.specific_activity == other.specific_activity)', ' and (self.specific_activity == other.specific_activity) and (self.molecule == other.molecule)',
+    'an arbitrary object is compared: a deep copy of the substance no longer equals the original')
+add('c07-wells-alias-one-container', ['C01', 'C07'], 'fire', 'Plate.__init__',
+    "self.wells = numpy.array([[Container(f'well {row},{col}', max_volume=f'{max_volume_per_well} L') for col in self.column_names] for row in self.row_names])",
+    "well = Container('well', max_volume=f'{max_volume_per_well} L')\n    self.wells = numpy.array([[well for col in self.column_names] for row in self.row_names])",
+    'every well is the same object')
